@@ -1,6 +1,7 @@
 """C12 - validation is deterministic and compositional (structural clauses)."""
 from __future__ import annotations
 
+from rules import generic_rules as G
 from rules import validation_rules as V
 from rules import write_effect as W
 from rules.astmodel import AstModel
@@ -43,6 +44,8 @@ def run(check: Check, repo: Repo, tier: str) -> None:
     check.floor("CACHE-ALIAS", 20, "container mutation sites in validation/")
     V.typeinfo_balance(check, repo, classes)
     V.limit(check, repo)
+    G.mutable_default(check, [f for m in vmods + [repo.mod("utilities.type_info")] for f in m.functions()])
+    check.floor("MUTABLE-DEFAULT", 3, "functions with default parameter values in validation/")
     V.default_is_none(check, repo, [repo.func('validation.validate', 'validate'), repo.func('validation.validate', 'validate_sdl')])
     from rules import language_rules as L
     L.result_filter(check, repo)
